@@ -45,6 +45,7 @@ Fixpoint dec (o : map_order) (fuel : nat) (l : list Z) : option (value * list Z)
                         | None => None
                         end
       | 11 :: n :: r => Some (VPlain (takeZ n r), skipZ n r)
+      | 12 :: n :: r => Some (VInvalid (takeZ n r), skipZ n r)
       | _ => None
       end
   end.
@@ -68,6 +69,7 @@ Fixpoint enc (v : value) : list Z :=
       (fix mp (xs : list (value * value)) : list Z :=
          match xs with [] => [] | (k, x) :: r => enc k ++ enc x ++ mp r end) kvs
   | VPlain s => 11 :: lenZ s :: s
+  | VInvalid _ => [12]
   end.
 
 Definition enc_out (o : outcome value) : list Z :=
@@ -123,6 +125,9 @@ Definition run_o (o : map_order) (inp : list Z) : list Z :=
           match dec o fuel r' with
           | Some (b, _) =>
               let c := vcmp a b in
+              (* loading an invalid value from the context raises its error *)
+              if (match a with VInvalid _ => true | _ => false end) || (match b with VInvalid _ => true | _ => false end)
+              then [b2z (veq_o o a b); c2z c; b2z (hash_eq a b); 103; 103; 103; 103] else
               [b2z (veq_o o a b); c2z c; b2z (hash_eq a b);
                b2z (match c with Lt => true | _ => false end);   (* a < b *)
                b2z (veq_o o a b);                                 (* a == b *)
